@@ -619,7 +619,7 @@ def check_filter(c, out, orc):
             if cc is None: continue
             if (cc == GT and rev != 1) or (cc == LT and rev == 1):
                 return [("dictsort-ordered", "keys %s, %s at positions %d, %d are out of order (cmp = %s, reverse = %s, by = %s)" % (show(kf(got[i])), show(kf(got[i + 1])), i, i + 1, CMPN[cc], rev == 1, "value" if count else "key"), None)]
-        return stability(pairs, got, kf, orc, "dictsort-stable")
+        return stability(pairs, got, kf, orc, "dictsort-stable", lambda p: "(%s, %s)" % (show(p[0]), show(p[1])))
     if name in ("map", "select", "reject", "sum", "join"):
         its = iter_items(x)
         if its is None:
@@ -812,7 +812,7 @@ def check_filter(c, out, orc):
     return bad
 
 
-def stability(citems, outl, k, orc, law):
+def stability(citems, outl, k, orc, law, show_item=None):
     """for every class of Equal keys: the output lists its members in input order"""
     reps = []
     for it in citems:
@@ -822,7 +822,8 @@ def stability(citems, outl, k, orc, law):
         a = [i for i in citems if orc.cmp(k(r), k(i)) == EQ]
         b = [i for i in outl if orc.cmp(k(r), k(i)) == EQ]
         if a != b:
-            return [(law, "items with key Equal to %s come out as %s, input order is %s" % (show(k(r)), "[" + ", ".join(map(show, b)) + "]", "[" + ", ".join(map(show, a)) + "]"), None)]
+            sh_ = show_item or show
+            return [(law, "items with key Equal to %s come out as %s, input order is %s" % (show(k(r)), "[" + ", ".join(map(sh_, b)) + "]", "[" + ", ".join(map(sh_, a)) + "]"), None)]
     return []
 
 
